@@ -52,8 +52,9 @@ def conn_sig(trace, line):
     return ">".join(evs) + ("+cb:" + cb if cb != "none" else "")
 
 
-def judge(chk, prop, family, traces, results, steps_of, sig_of, sources):
-    """Turn TLC's per-trace results into verdicts for `prop`."""
+def judge(chk, prop, family, traces, results, steps_of, sig_of, sources, alias=None):
+    """Turn TLC's per-trace results into verdicts for `prop`.  `alias(clause, step)` may re-attribute a
+    clause of the family's own properties to `prop` (e.g. a broker client's close is also part of C20)."""
     for i, (tr, res) in enumerate(zip(traces, results)):
         steps = steps_of(tr)
         viol = res["viol"]
@@ -62,6 +63,10 @@ def judge(chk, prop, family, traces, results, steps_of, sig_of, sources):
         for c, l in env:
             if c == "ENV.impossible" and not [x for x in real if x[1] < l] and not [d for d in res["drift"] if d[1] < l] \
                     and not [x for x in env if x[0] == "ENV.exception" and x[1] < l]:
+                import os
+                os.makedirs(os.path.join(tlc.BUILD, "replays"), exist_ok=True)
+                with open(os.path.join(tlc.BUILD, "replays", "machinery.json"), "w") as fh:
+                    json.dump({"family": family, "trace": tr, "line": l}, fh)
                 raise tlc.MachineryError("%s trace %d (%s): event %d impossible in the model with no earlier "
                                          "divergence: %s" % (family, i, sources[i], l, json.dumps(steps[:l])))
         first = {}
@@ -70,6 +75,11 @@ def judge(chk, prop, family, traces, results, steps_of, sig_of, sources):
         exc = [l for (c, l) in env if c == "ENV.exception"]
         if exc and not real:
             first["%s.exception" % prop] = min(exc)
+        for c, l in list(first.items()):
+            if alias is not None:
+                c2 = alias(c, steps[l - 1])
+                if c2:
+                    first[c2] = min(l, first.get(c2, l))
         for c, l in first.items():
             chk.count(c)
             if not c.startswith(prop + "."):
@@ -82,7 +92,7 @@ def judge(chk, prop, family, traces, results, steps_of, sig_of, sources):
             chk.add_drift(len(res["drift"]), {"family": family, "trace": i, "at": res["drift"][0]})
 
 
-def run_conn(chk, prop, tier, seed):
+def run_conn(chk, prop, tier, seed, alias=None):
     rng = random.Random(seed)
     thorough = tier == "thorough"
     # (a) design model, exhaustive within bounds
@@ -124,7 +134,7 @@ def run_conn(chk, prop, tier, seed):
     chk.add_traces(len(traces), sum(len(t) for t in traces))
     chk.sample({"family": "conn", "source": sources[0], "trace": traces[0][:8]})
     chk.sample({"family": "conn", "source": sources[-1], "trace": traces[-1][:10]})
-    judge(chk, prop, "conn", traces, results, lambda t: t, conn_sig, sources)
+    judge(chk, prop, "conn", traces, results, lambda t: t, conn_sig, sources, alias=alias)
 
 
 def run_framing(chk, prop, tier, seed):
